@@ -1462,6 +1462,14 @@ int32_t tls13WriteNewSessionTicket(ssl_t *ssl, sslBuf_t *out)
 
     psTracePrintHsMessageCreate(ssl, SSL_HS_NEW_SESSION_TICKET);
 
+    if (ssl->sec.tls13NstMsg != NULL)
+    {
+        /* The message was built by an earlier call that ended in SSL_FULL:
+           send that one instead of drawing new random values, so that what
+           is emitted does not depend on how the output buffer is drained. */
+        goto wrap_message;
+    }
+
     rc = psGetPrng(NULL,
             (unsigned char*)&ticketAgeAdd,
             sizeof(ticketAgeAdd), NULL);
@@ -1541,14 +1549,23 @@ int32_t tls13WriteNewSessionTicket(ssl_t *ssl, sslBuf_t *out)
     {
         goto out_internal_error;
     }
+    ssl->sec.tls13NstMsg = nstData;
+    ssl->sec.tls13NstMsgLen = nstDataLen;
 
+wrap_message:
     rc = makeHsRecord(ssl,
             SSL_HS_NEW_SESSION_TICKET,
-            nstData,
-            nstDataLen,
+            ssl->sec.tls13NstMsg,
+            ssl->sec.tls13NstMsgLen,
             PS_TRUE,
             out);
-    psFree(nstData, ssl->hsPool);
+    if (rc == SSL_FULL)
+    {
+        return rc; /* Keep the message for the retry. */
+    }
+    psFree(ssl->sec.tls13NstMsg, ssl->hsPool);
+    ssl->sec.tls13NstMsg = NULL;
+    ssl->sec.tls13NstMsgLen = 0;
     return rc;
 
 out_internal_error:
